@@ -157,6 +157,19 @@ example : Within ["b"] (MergeAssign "b")
 example : declaredIn [] [.decl .var [.var "a" {}, .var "b" {}], .expr (.assign "b" { decl := 1 } (.num 5))] "b" = true := by
   decide
 
+/-- **comma_split_sound** (full): `a,b,…;` and `a;b,…;` are the same — `mergeVarDeclExprStmt` takes the assignments off
+    one end of a comma list one by one; with this every such merge is a chain of the single merges above
+    (`ListEqA.trans`) -/
+theorem comma_split_sound (H : Host) (n : Nat) (ps : List String) (cenv : Env) (args : List Val)
+    (body body' : List DS)
+    (h : Within [] (fun l l' => ∃ a b t rest, l = .expr (.comma (a :: b :: t)) :: rest ∧
+      l' = .expr a :: .expr (.comma (b :: t)) :: rest) body body') :
+    callN H (n + 1) (.clo ps body' cenv) args = callN H (n + 1) (.clo ps body cenv) args := by
+  have heq : ListEqA [] body body' := h.listEq (by
+    rintro l l' ⟨a, b, t, rest, rfl, rfl⟩
+    exact commaSplit_eq a b t rest)
+  exact (callN_congr H n ps cenv args heq (by simp)).symm
+
 /-- a hoisted declaration merged back into a neighbouring `var` declaration: sound when its names are declared by the
     function (they are: `hoistVars` copied them to the best declaration, `hoist_names`) -/
 theorem merge_hoisted_sound (H : Host) (n : Nat) (ps : List String) (cenv : Env) (args : List Val)
